@@ -228,6 +228,18 @@ class RefVal:
         return 'Ref(%r)' % (self.path,)
 
 
+class TupleVal:
+    """fixed-size array of values that cannot live in z3 arrays (pointers): std::array<const T*, N>"""
+    __slots__ = ('items', 'el')
+
+    def __init__(self, items, el=None):
+        self.items = list(items)
+        self.el = el
+
+    def __repr__(self):
+        return 'Tuple(%r)' % (self.items,)
+
+
 class Opaque:
     __slots__ = ('name',)
 
